@@ -475,9 +475,32 @@ def _requires_watch_predicate(ctx, crate, R):
     ctx.floor(R, "candidate predicates over the trail in Clause::requires", n, 1)
 
 
+def _requires_always_watched(ctx, crate, crs, R):
+    """A Requires clause with at least one candidate is always watched - also when it is satisfied right now: the watch is what
+    re-examines it after the solver backtracks over the satisfying candidate (area seed C04-20: no watches for an already satisfied
+    clause; once its candidates are exhausted decide() reaches its unreachable!).  `None` watches are only built on the
+    no-candidates path."""
+    b = body_by_key(crate, CLAUSE + "::requires")
+    if b is None:
+        return
+    nones = [(i, s_) for i, j, s_ in b.assigns() if s_["r"]["k"] == "agg" and str(s_["r"].get("adt", "")).endswith("option::Option")
+             and s_["r"].get("variant") == "None" and "Literal; 2]" in b.local_ty(s_["p"]["l"])]
+    empties = []
+    for c in q.conds(b, crs):
+        if c.kind == "discr" and c.adt == "std::option::Option" and c.src and c.src.get("k") == "call" and \
+                c.src["t"]["f"]["name"] in ("copied", "cloned", "peek", "next", "first") and c.target("None") is not None:
+            empties.append((c.bb, c.target("None")))
+    for i, s_ in nones:
+        ok = any(q.edge_dominates(b, sb, tg, i) for sb, tg in empties)
+        ctx.ob(R, b.key, "unwatched-only-without-candidates", ok, "%s:%s" % (b.file, s_.get("line")),
+               "`None` watches are built only on the path where the candidate iterator was empty")
+    ctx.floor(R, "no-watch results in Clause::requires", len(nones), 1)
+
+
 def clause_shape(ctx, crate, crs, tag):
     R = "clause-shape" + tag
     ctx.guard(R, _requires_watch_predicate, ctx, crate, R)
+    ctx.guard(R, _requires_always_watched, ctx, crate, crs, R)
     # (a) constructors in impl Clause
     ctor_lits = {}
     for name, variant in CTOR_FIELDS.items():
